@@ -5,7 +5,17 @@ use lelwel::frontend::sema::SemanticPass;
 use lelwel::frontend::ast::{self, AstNode, Named};
 use std::io::BufRead;
 
+thread_local! { static VARIANT: std::cell::Cell<u8> = std::cell::Cell::new(0); }
 fn lexeme(kind: &str) -> &'static str {
+    // lexeme variants for the token kinds that carry a payload (V1: zero / empty payloads, V2: several digits, leading zero)
+    match (VARIANT.with(|v| v.get()), kind) {
+        (1, "NodeMarker") => return "<0", (1, "NodeCreation") => return "0>n", (1, "Predicate") => return "?t", (1, "Action") => return "#0",
+        (1, "Assertion") => return "!0", (1, "NodeRename") => return "@", (1, "Id") => return "a1_b",
+        (2, "NodeMarker") => return "<010", (2, "NodeCreation") => return "010>", (2, "Predicate") => return "?12", (2, "Action") => return "#12",
+        (2, "Assertion") => return "!12", (2, "NodeRename") => return "@rn2", (2, "Id") => return "Zz",
+        (3, "NodeCreation") => return ">", (3, "NodeMarker") => return "<7", (3, "Predicate") => return "?0",
+        _ => {}
+    }
     match kind {
         "LineComment" => "//c\n", "BlockComment" => "/*c*/", "DocComment" => "///d\n", "Whitespace" => " ",
         "Token" => "token", "Start" => "start", "Right" => "right", "Skip" => "skip", "Part" => "part",
@@ -52,6 +62,23 @@ fn regex(cst: &Cst<'_>, r: ast::Regex, out: &mut String) {
         Return(_) => out.push_str("[\"leaf\",\"return\",null]"),
     }
 }
+fn derived(cst: &Cst<'_>, r: ast::Regex, out: &mut Vec<String>) {
+    use ast::Regex::*;
+    let o = |x: Option<&str>| x.map_or("~none~".to_string(), |s| s.to_string());
+    match r {
+        OrderedChoice(x) => for y in x.operands(cst) { derived(cst, y, out) },
+        Alternation(x) => for y in x.operands(cst) { derived(cst, y, out) },
+        Concat(x) => for y in x.operands(cst) { derived(cst, y, out) },
+        Paren(x) => if let Some(i) = x.inner(cst) { derived(cst, i, out) },
+        Optional(x) => if let Some(i) = x.operand(cst) { derived(cst, i, out) },
+        Star(x) => if let Some(i) = x.operand(cst) { derived(cst, i, out) },
+        Plus(x) => if let Some(i) = x.operand(cst) { derived(cst, i, out) },
+        Predicate(x) => if let Some((t, _)) = x.value(cst) { out.push(format!("predicate|{}|{}", t, x.is_true(cst))) },
+        NodeMarker(x) => if let Some((t, _)) = x.value(cst) { out.push(format!("node_marker|{}|{}", t, x.number(cst))) },
+        NodeCreation(x) => if let Some((t, _)) = x.value(cst) { out.push(format!("node_creation|{}|{}|{}|{}", t, o(x.number(cst)), o(x.node_name(cst)), x.whole_rule(cst))) },
+        _ => {}
+    }
+}
 fn view(cst: &Cst<'_>, out: &mut String) {
     let Some(file) = ast::File::cast(cst, NodeRef::ROOT) else { out.push_str("null"); return; };
     out.push_str("{\"tokens\":[");
@@ -65,6 +92,10 @@ fn view(cst: &Cst<'_>, out: &mut String) {
         match r.regex(cst) { Some(x) => regex(cst, x, out), None => out.push_str("null") }
         out.push(']');
     }
+    out.push_str("],\"derived\":[");
+    let mut dv = vec![];
+    for r in file.rule_decls(cst) { if let Some(x) = r.regex(cst) { derived(cst, x, &mut dv); } }
+    out.push_str(&dv.iter().map(|d| format!("{:?}", d)).collect::<Vec<_>>().join(","));
     out.push_str("],\"starts\":[");
     f = true;
     for s in file.start_decls(cst) { if !f { out.push(','); } f = false; out.push_str(&pos(s.rule_name(cst))); }
@@ -123,6 +154,9 @@ fn main() {
             match res { Ok(s) => println!("{s}"), Err(_) => println!("{{\"text_mode\":true,\"panic\":true}}") }
             continue;
         }
+        let mut line = line.as_str();
+        VARIANT.with(|v| v.set(0));
+        for k in 1..=3u8 { if let Some(rest) = line.strip_prefix(&format!("V{k} ")) { VARIANT.with(|v| v.set(k)); line = rest; } }
         let kinds: Vec<String> = line.split_whitespace().map(|s| s.to_string()).collect();
         let text: String = kinds.iter().map(|k| lexeme(k)).collect();
         let mut ld = vec![];
